@@ -34,7 +34,8 @@ impl Command for T {
             return match a.get(0).map(|s| s.as_str()) {
                 Some("CRASHME") => CommandResult::Crash("handler crashed".to_string()),
                 Some("EXITME") => CommandResult::Exit(None),
-                _ => CommandResult::Continue(None),
+                // a handler may continue with a value of its own: the failing instruction's output stays 'false'
+                _ => if self.aliases.contains(&"with_value".to_string()) { CommandResult::Continue(Some("handled".to_string())) } else { CommandResult::Continue(None) },
             };
         }
         let val = a.get(1).filter(|v| v.as_str() != "-").cloned();
@@ -83,7 +84,7 @@ pub fn gen(r: &mut Rng) -> Value {
         // later) an alias of another: the alias table is consulted first
         lines.push(json!({"label": label, "out": out, "kind": kind, "val": val, "target": target, "via_alias": r.chance(1, 5)}));
     }
-    json!({"lines": lines, "on_error": r.below(3), "fuel": 40})
+    json!({"lines": lines, "on_error": r.below(4), "fuel": 40})
 }
 
 fn upd(vars: &mut BTreeMap<String, String>, out: &Option<String>, v: Option<String>) {
@@ -231,7 +232,8 @@ pub fn run(input: &Value) -> Option<Value> {
     context.commands.set(Box::new(T { trace: tr.clone(), name: "shadow".to_string(), aliases: vec![] })).ok()?;
     context.commands.set(Box::new(T { trace: tr.clone(), name: "real".to_string(), aliases: vec!["shadow".to_string()] })).ok()?;
     if on_error > 0 {
-        context.commands.set(Box::new(T { trace: tr.clone(), name: "on_error".to_string(), aliases: vec![] })).ok()?;
+        // on_error == 3: the handler continues with a value ("with_value" is only a marker alias)
+        context.commands.set(Box::new(T { trace: tr.clone(), name: "on_error".to_string(), aliases: if on_error == 3 { vec!["with_value".to_string()] } else { vec![] } })).ok()?;
     }
     let halt = Arc::new(AtomicBool::new(false));
     let env = Env::new(None, None, Some(halt));
